@@ -64,6 +64,16 @@ fn main() {
         _ => usage(),
     };
     let ctx = Ctx::new(&prop, tier);
+    // watchdog: a run that does not finish is inconclusive (exit 2), never a violation
+    let limit = std::env::var("VERIF_WATCHDOG_S")
+        .ok()
+        .and_then(|s| s.parse::<u64>().ok())
+        .unwrap_or(if tier == Tier::Quick { 900 } else { 6 * 3600 });
+    std::thread::spawn(move || {
+        std::thread::sleep(std::time::Duration::from_secs(limit));
+        eprintln!("INCONCLUSIVE: watchdog: run did not finish within {} s", limit);
+        std::process::exit(2);
+    });
     let rr = match props::run(&ctx) {
         Some(r) => r,
         None => {
